@@ -32,7 +32,8 @@ ASSUMPTIONS = [
     '(<=3 hops) - e.g. load wraps package-phase errors in SourceLoadError',
     'failpoints lexically inside a try statement of the library are not used (the library may handle them itself); '
     'parallelize.py is excluded from failpoints (covered by the dedicated subprocess family)',
-    'BaseException-only classes and StopIteration are outside "a step raises an error"',
+    'BaseException-only classes (KeyboardInterrupt, SystemExit, GeneratorExit) are outside "a step raises an error"; '
+    'StopIteration IS injected (PEP 479 wraps it into a RuntimeError inside generators: accepted as wrapped cause)',
 ]
 REQUIRED_COUNTERS = ['faults_fired']
 CASE_TIMEOUT = 300
@@ -169,6 +170,12 @@ def gen_cases(tier, seed):
             yield {'family': 'failpoint', 'pipeline': pid, 'pos': k, 'nshards': nfp, 'seed': seed, 'tier': tier}
     for k in range({'quick': 6, 'thorough': 24}[tier]):
         yield {'family': 'parallelize', 'pipeline': 'PAR', 'pos': k, 'seed': seed, 'tier': tier}
+    # I/O errors raised by the operating system while an observer writes (disk full, bad path ...): every I/O event
+    # of the writers (crash-lab shims) is a fault point
+    for pid in ('P1', 'P2', 'P3', 'P5', 'P6'):
+        nsh = {'quick': 2, 'thorough': 8}[tier]
+        for k in range(nsh):
+            yield {'family': 'io_fault', 'pipeline': pid, 'pos': k, 'nshards': nsh, 'seed': seed, 'tier': tier}
 
 
 _LEN = {'P1': 7, 'P2': 6, 'P3': 7, 'P4': 11, 'P5': 10, 'P6': 5}
@@ -275,6 +282,8 @@ def run_case(case):
         run_special(case, rng, counters, judge)
     elif fam == 'failpoint':
         run_failpoints(case, rng, counters, cov, judge)
+    elif fam == 'io_fault':
+        run_iofaults(case, rng, counters, cov, judge)
     else:
         return run_parallelize(case, rng, counters, cov, viol, add)
     sample = {'pipeline': pid, 'family': fam, 'position': case['pos'], 'fired': counters['faults_fired']}
@@ -369,7 +378,9 @@ def run_failpoints(case, rng, counters, cov, judge):
     if case['tier'] == 'quick':
         ns = rng.sample(ns, min(len(ns), 40))
     for i, n in enumerate(sorted(ns)):
-        cls = faultlab.CLASSES[(n + i) % len(faultlab.CLASSES)]
+        fp_classes = [c for c in faultlab.CLASSES if c != 'StopIteration']   # meaningful in user steps only: at an
+        # arbitrary library line (e.g. inside a filter() predicate) python itself reads it as "iterator exhausted"
+        cls = fp_classes[(n + i) % len(fp_classes)]
         tag = 'p%d' % n
         inj = faultlab.make_exception(cls, tag)
         with faultlab.Failpoints() as fp:
@@ -480,3 +491,59 @@ def run_parallelize(case, rng, counters, cov, viol, add):
                 'parallelize/%s/hang_at_exit' % kind)
     return dict(nontrivial=True, violations=viol, cov=cov, counters=counters,
                 sample={'pipeline': 'parallelize', 'fault': kind, 'workers': workers, 'result': res})
+
+
+def run_iofaults(case, rng, counters, cov, judge):
+    """OSError raised right before the k-th I/O event of the writers (stream / file dumpers), in a forked child."""
+    from vlib import crashlab
+    d = lab.df()
+    pid = case['pipeline']
+    scratch = os.getcwd()
+
+    def record():
+        plan = crashlab.Plan('record')
+        crashlab.install(plan, scratch)
+        st, _ = build(pid, 'iorec')
+        with boot.quiet():
+            d.Flow(*st).process()
+        return {'trace': list(plan.trace)}
+    code, rec = crashlab.in_child(record, os.path.join(scratch, 'rep.json'))
+    if code != 0 or not rec:
+        return
+    trace = rec['trace']
+    K = len(trace)
+    ks = list(range(1 + case['pos'], K + 1, case['nshards']))
+    if case['tier'] == 'quick':
+        ks = sorted(rng.sample(ks, min(len(ks), 25)))
+    for i, k in enumerate(ks):
+        tag = 'io%d' % k
+
+        def faulted(k=k, tag=tag, i=i):
+            plan = crashlab.Plan('raise', at=k)
+            crashlab.install(plan, scratch)
+            st, obs = build(pid, tag)
+            err = None
+            try:
+                with boot.quiet() as cap:
+                    if i % 2:
+                        d.Flow(*st).process()
+                    else:
+                        d.Flow(*st).results()
+            except Exception as e:
+                err = e
+            if plan.raised_exc is None or plan.fired_in_chain_build:
+                # not reached, or raised while the flow was still being chained (step construction, e.g. checkpoint
+                # opening its file): not "a step raises"
+                return {'verdict': 'not_reached'}
+            if err is None:
+                return {'verdict': 'returned_normally', 'detail': 'fault before %r' % (plan.fired,)}
+            v, detail = faultlab.classify(err, plan.raised_exc)
+            return {'verdict': v, 'detail': detail}
+        counters['faults_armed'] += 1
+        code, rep = crashlab.in_child(faulted, os.path.join(scratch, 'rep.json'))
+        if code != 0 or not rep or rep.get('verdict') in (None, 'not_reached') or rep.get('child_exception'):
+            continue
+        ev = trace[k - 1]
+        cov['fault_sites']['io:%s' % ev[0]] = cov['fault_sites'].get('io:%s' % ev[0], 0) + 1
+        judge(rep['verdict'], rep.get('detail', ''), [], '%s OSError before I/O event %d/%d (%s %s) via %s()'
+              % (pid, k, K, ev[0], ev[1], 'process' if i % 2 else 'results'), 'OSError', 'io_fault:' + ev[0])
